@@ -93,7 +93,13 @@ TraceQ6 ==
 TraceInit == /\ l = 1
              /\ file = [p \in Protos |-> << >>] /\ table = [p \in Protos |-> << >>]
              /\ live = [p \in Protos |-> FALSE] /\ auto = [p \in Protos |-> FALSE]
-TraceNext == TraceReset \/ TraceSetup \/ TraceStep \/ TraceReload \/ TraceNoReload \/ TraceQ4 \/ TraceQ6
+\* two generations in quick succession (a big table, and a small one while the big one is still being parsed): when
+\* everything has settled the served mapping is the file's - "a well-formed update eventually replaces the whole mapping"
+TraceGen2 == /\ IsEvent("gen2")
+             /\ (Lens \cap {"C10", "C16"} # {}) => Trace[l].ok
+             /\ UNCHANGED <<file, table, live, auto>>
+TraceNote == IsEvent("note") /\ UNCHANGED <<file, table, live, auto>>
+TraceNext == TraceReset \/ TraceSetup \/ TraceStep \/ TraceReload \/ TraceNoReload \/ TraceQ4 \/ TraceQ6 \/ TraceGen2 \/ TraceNote
 TraceSpec == TraceInit /\ [][TraceNext]_tvars
 
 TraceAccepted ==
